@@ -255,7 +255,7 @@ def add(x, y, cy=1, what="add"):
     cy = D(cy)
     terms = inst(x, mx) + [(c * cy, n) for c, n in inst(y, my)]
     if len(terms) > 24:
-        terms = normalize_terms(terms, {v for a in axes for v in a})
+        terms = normalize_terms(terms, {v for a in axes for v in a}, _absorb=False)
     return Val(axes, terms)
 
 
@@ -351,7 +351,7 @@ def _prune(terms, free):
             continue
         out.append(r)
     if len(out) > 24:
-        out = normalize_terms(out, free)
+        out = normalize_terms(out, free, _absorb=False)
     return out
 
 
@@ -913,6 +913,8 @@ def inverse(v, what="inverse"):
                 ST.pair[h] = nh
                 ST.pair[nh] = h
             ph = ST.pair[h]
+            if h in ST.lndet and ph not in ST.lndet:
+                ST.lndet[ph] = (-ST.lndet[h][0], ST.lndet[h][1])
             inv = Val(axes, [(D(1) / c, Net([(ph, tuple(m[x] for x in ix))]))])
             if h not in ST.lndet:
                 if ph in ST.lndet:
